@@ -772,7 +772,7 @@ class Executor:
                 self.inputs[v.name + ".discr"] = c
                 v.memo["#d"] = VInt(c, 64, True)
                 # a value of an enum type holds one of its variants
-                tn = re.sub(r"^(std|core)::\w+::", "", (v.ty or "").strip())
+                tn = re.sub(r"<.*", "", (v.ty or "").strip().lstrip("&")).split("::")[-1]
                 m = re.match(r"(\w+)", tn)
                 nvar = None
                 if m:
@@ -1004,7 +1004,7 @@ class Executor:
         if len(cands) == 1:
             return cands[0]
         # Type::method  ->  "<impl at ...>::method" is ambiguous; try the method name with the type in the signature
-        m = re.match(r"(\w+)(?:::<.*>)?::(\w+)$", c)
+        m = re.search(r"(\w+)(?:::<[^>]*>)?::(\w+)$", c)
         if m:
             ty, meth = m.group(1), m.group(2)
             cands = [fn for name, fn in self.funcs.items() if name.endswith("::" + meth) and fn.args and re.search(r"\b%s\b" % ty, fn.args[0][1] + " " + (fn.ret or ""))]
